@@ -4,7 +4,7 @@
    parse_to_mir (mir.rs:440-665), InterfaceVerifier (interface_verifier.rs).
    Definitions only; proofs live in proofs/. *)
 Require Import Base Syntax.
-Require Import gen.CodeFacts.
+Require Import gen.CodeFacts gen.CounterFacts.
 
 (* ------------------------------------------------------------------ *)
 (* Symbol table                                                        *)
@@ -154,6 +154,7 @@ Definition field_size_align (store : list (string * (N * N))) (t : aty)
 Definition usize_max : N := 18446744073709551616.
 Definition uop (md : mode) (site : N) (v : N) : outcome N :=
   if v <? usize_max then Ok v
+  else if struct_size_checked then Reject ROverflow          (* checked_mul / checked_add: an error in both profiles *)
   else match md with Debug => Reject ROverflow | Release => UB site end.
 
 Fixpoint verify_fields (md : mode) (store : list (string * (N * N)))
